@@ -4,7 +4,10 @@ EXTENDS Backoff, Json, IOUtils
 VARIABLES script, done
 GenDepth == IF "GEN_DEPTH" \in DOMAIN IOEnv THEN atoi(IOEnv.GEN_DEPTH) ELSE 8
 gvars == <<n, hist, script, done>>
-Os == <<"ok", "err", "err", "err", "panic", "requeue", "requeueErr", "skip">>
+(* GEN_ERRONLY=1: long streaks of consecutive failures (the back-off has to stay at its cap however long the item keeps failing) *)
+ErrOnly == "GEN_ERRONLY" \in DOMAIN IOEnv /\ IOEnv.GEN_ERRONLY = "1"
+Os == IF ErrOnly THEN <<"err", "err", "err", "err", "err", "err", "err", "panic">>
+      ELSE <<"ok", "err", "err", "err", "panic", "requeue", "requeueErr", "skip">>
 GenInit == Init /\ script = <<>> /\ done = FALSE
 GenStep ==
   \E o \in {Os[RandomElement(1..Len(Os))]}, d \in {RandomElement(Delays)},
